@@ -355,10 +355,12 @@ class Interp:
         self.stack.append(sc)
         return sc
 
-    def block_in_scope(self, block, sc):
+    def block_in_scope(self, block, sc, raw=False):
         self.stack.append(sc)
         try:
-            return self.run_block(block)
+            v = self.run_block(block)
+            # a block whose last statement leaves no value contributes nil to its caller
+            return v if raw else (None if v is NOVALUE else v)
         except _ExitWith as e:
             return e.value
         except _BreakOut as e:
@@ -368,7 +370,7 @@ class Interp:
         finally:
             self.stack.pop()
 
-    def new_block(self, block, ns=None, bind=None):
+    def new_block(self, block, ns=None, bind=None, raw=False):
         """evaluates a block in a fresh child scope; returns its value"""
         if ns is None:
             if self.stack and "with_not_inherited" not in self.q:
@@ -378,7 +380,7 @@ class Interp:
         sc = Scope(ns)
         if bind:
             sc.vars.update(bind)
-        return self.block_in_scope(block, sc)
+        return self.block_in_scope(block, sc, raw)
 
     def run_block(self, block):
         val = None
@@ -437,7 +439,7 @@ class Interp:
                 src = [src]
             for i, n in enumerate(s[2]):
                 self.stack[-1].vars[n.lower()] = src[i] if i < len(src) else None
-            return True  # params returns a boolean; generator never uses it as a value
+            return None  # the value of params is not fixed by the statements; this VM yields nil
         if k == "e":
             return self.expr(s[1])
         if k == "exitWith":
@@ -559,8 +561,10 @@ class Interp:
         if k == "while":
             return self.while_loop(e)
         if k == "isNilc":
-            v = self.new_block(e[1])
-            return v is None or v is NOVALUE
+            v = self.new_block(e[1], raw=True)
+            if v is NOVALUE:
+                raise SqfError(("novalue", "isNil"), "natural")
+            return v is None
         if k == "isNils":
             n = e[1]
             if n.startswith("_"):
